@@ -469,6 +469,56 @@ def _bool_defs(body, local, neg=False, seen=None):
     return out
 
 
+def local_implies(body, local, inner, polarity, value):
+    """Does the bool `local` having `value` imply that the test event(s) `inner` returned `polarity`? (`let wanted =
+    a.test() && !b.test(); if wanted {..}`: every way the local can become `value` is the test's own result in
+    the right sense, or lies behind an edge on which the test returned `polarity`.)"""
+    edges = set()
+    for e in inner:
+        edges |= bool_switch_edges(body, e, polarity)
+    defs = _bool_defs(body, local)
+    if not any(d[1] == "call" and d[2] in inner for d in defs) and not edges:
+        return False
+    for d in defs:
+        bb, kind = d[0], d[1]
+        if kind == "const":
+            if d[2] != value:
+                continue
+        elif kind == "call" and d[2] is not None and d[2] in inner:
+            if (value != d[3]) == polarity:
+                continue
+        if not edges or not body.must_pass_edges(edges, bb):
+            return False
+    return True
+
+
+def joined_bool_edges(body, e, polarity):
+    """Edges of switches on a bool local that combines the result of test `e` with constants or other tests
+    (`let wanted = e() && ..`), taken when the local's value implies e == polarity."""
+    out = set()
+    direct = set()
+    for pol in (True, False):
+        direct |= {u for (u, v) in bool_switch_edges(body, e, pol)}
+    for bb in body.live:
+        t = body.blocks[bb]["term"]
+        if t["tk"] != "switch" or bb in direct:
+            continue
+        l = flow.operand_local(t["discr"])
+        if l is None or t["discr"]["pl"]["p"] or body.locals[l] != "bool":
+            continue
+        defs = _bool_defs(body, l)
+        if not any(d[1] == "call" and d[2] is e for d in defs) and \
+                not any(d[1] == "const" for d in defs):
+            continue
+        if not (any(d[1] == "call" and d[2] is e for d in defs) or
+                any(body.must_pass_edges(bool_switch_edges(body, e, p_), d[0]) for d in defs for p_ in (True, False) if bool_switch_edges(body, e, p_))):
+            continue
+        for val in (True, False):
+            if local_implies(body, l, [e], polarity, val):
+                out |= local_bool_edges(body, {l}, val)
+    return out
+
+
 def helper_implies(crate, hb, fn, polarity, value):
     """In the bool-returning body `hb`: does returning `value` imply that a call of `fn` in it returned
     `polarity`? (Every way _0 can become `value` either IS fn's result with the right sense, or lies behind
@@ -487,6 +537,33 @@ def helper_implies(crate, hb, fn, polarity, value):
         elif kind == "call" and d[2] is not None and d[2] in inner:
             # _0 = fn(..) or !fn(..): equals `value` exactly when fn == value ^ negated
             if (value != d[3]) == polarity:
+                continue
+        if not edges or not hb.must_pass_edges(edges, bb):
+            return False
+    return True
+
+
+def helper_implies_any(crate, hb, alts, value):
+    """In the bool-returning body `hb`: does returning `value` imply that AT LEAST ONE of the tests in `alts`
+    ({fn: polarity}) had its polarity?  (`is_selected == false` implies `!is_prefix_of || matches`.)"""
+    inner = {}
+    for e in hb.events:
+        if e.bb in hb.live and e.callee != POLL:
+            n = e.resolved or (e.callee if e.resolved is None else None)
+            if n in alts:
+                inner[e] = alts[n]
+    if not inner:
+        return False
+    edges = set()
+    for e, pol in inner.items():
+        edges |= bool_switch_edges(hb, e, pol)
+    for d in _bool_defs(hb, 0):
+        bb, kind = d[0], d[1]
+        if kind == "const":
+            if d[2] != value:
+                continue
+        elif kind == "call" and d[2] is not None and d[2] in inner:
+            if (value != d[3]) == inner[d[2]]:
                 continue
         if not edges or not hb.must_pass_edges(edges, bb):
             return False
@@ -532,7 +609,8 @@ def predicate_sites(crate, body, fn):
             continue
         tgt = e.resolved or (e.callee if e.resolved is None else None) or ""
         if tgt == fn:
-            out.append(PredSite(crate, body, e, body, e, {True: bool_switch_edges(body, e, True), False: bool_switch_edges(body, e, False)}))
+            out.append(PredSite(crate, body, e, body, e, {True: bool_switch_edges(body, e, True) | joined_bool_edges(body, e, True),
+                                                          False: bool_switch_edges(body, e, False) | joined_bool_edges(body, e, False)}))
             continue
         hb = crate.bodies.get(tgt)
         if hb is None or hb is body or (hb.ret or "") != "bool" or hb.kind not in ("fn", "assoc_fn"):
